@@ -1,4 +1,5 @@
 import HypatiaModel.TextScore
+import HypatiaModel.Spec.SetOpsSpec
 
 /-!
 # The documented relevance formulas, evaluated on the current document table
@@ -39,9 +40,7 @@ def okapiTF (T : Table) (ws : List Nat) (t : Nat) : α :=
     (nat (ws.count t) + k1 * ((nat 1 - b) + b * nat ws.length / meanLen T))
 
 /-- sum of a non-empty list, `none` for the empty one -/
-def sum1 : List α → Option α
-  | [] => none
-  | c :: cs => some (cs.foldl (· + ·) c)
+abbrev sum1 : List α → Option α := SetSpec.sum1
 
 /-- the query terms that occur in the document (repeats kept) -/
 def matched (ws : List Nat) (terms : List Nat) : List Nat := terms.filter (fun t => ws.contains t)
